@@ -1,5 +1,5 @@
 (* Properties/C18.v -- template text round-trips through input and output encodings *)
-From MakoV Require Import Lib.Str Gen.Unicode Model.Encoding Proofs.EncodingProofs.
+From MakoV Require Import Lib.Str Gen.Unicode Model.Encoding Proofs.EncodingProofs Proofs.EncodingLast.
 Open Scope N_scope.
 
 (* which first lines declare an encoding, for every text *)
@@ -10,6 +10,13 @@ Theorem C18_coding_comment_shape : forall s name rest, coding_match s = Some (na
     name <> [] /\ forallb is_namechar_e name = true /\ no_lf post.
 Proof. exact coding_comment_shape. Qed.
 Print Assumptions C18_coding_comment_shape.
+
+(* the leading part of the pattern is greedy: of several declarations on the first line the last counts *)
+Theorem C18_last_declaration_on_the_line_counts : forall r name rest, find_last r = Some (name, rest) ->
+  exists pre s, r = pre ++ s /\ no_lf pre /\ try_at s = Some (name, rest) /\
+    forall mid s', s = mid ++ s' -> mid <> [] -> no_lf mid -> try_at s' = None.
+Proof. exact find_last_is_last. Qed.
+Print Assumptions C18_last_declaration_on_the_line_counts.
 
 Theorem C18_no_hash_no_comment : forall s, (match s with c :: _ => c <> cHASHe | [] => True end) -> coding_match s = None.
 Proof. exact no_hash_no_comment. Qed.
